@@ -28,9 +28,9 @@ func init() {
 				Blocks:   16,
 				Procs:    16,
 				Rule: "(a) deterministic runs: buffer sizes 2..64 and a few large ones, streams whose number of distinct values is below, at and far above the size, every value repeated 1..4 times in interleaved order, Reset at random points; after EVERY Add: Count == exact number of distinct values while fewer than size distinct values have been added since creation/Reset, Len <= size, Count == Len * 2^j with j an integer that never decreases until Reset; after Reset: Len == 0, Count == 0 and the exact regime again. " +
-					"(b) statistical configurations (size, D): sizes 8, 16, 64 with D below, 10x and 100x the size using R = 4000 (40000 thorough) independent seeded counters each, sizes 4, 5, 6 with D = 48 and 600 using R = 200000 (larger R because the estimator is more skewed there), sizes 64..256 with enough distinct values for many halving rounds, and scripted streams that sit just above capacity with the zero value of the element type at the critical position (first Add after the buffer fills, first Add overall, back-to-back repeats), and streams counted after a Reset that followed a long run far above capacity; the fixed stream repeats every value 1..3 times, interleaved; |mean(Count) - D| <= 7 * sd/sqrt(R) + 0.002 * D. Sizes 2 and 3 get the deterministic clauses only (estimator too heavy-tailed for a CLT-based tolerance). " +
+					"(b) statistical configurations (size, D): sizes 8, 16, 64 with D below, 10x and 100x the size using R = 4000 (40000 thorough) independent seeded counters each, sizes 4, 5, 6 with D = 48 and 600 using R = 200000 (larger R because the estimator is more skewed there), sizes 64..256 with enough distinct values for many halving rounds, and scripted streams that sit just above capacity with the zero value of the element type at the critical position (first Add after the buffer fills, first Add overall, back-to-back repeats), and streams counted after a Reset that followed a long run far above capacity; the fixed stream repeats every value 1..3 times, interleaved; |mean(Count) - D| <= 7 * sd/sqrt(R) + 0.002 * D. (c) natively seeded counters (the reseeding hook is not used: NewCounter's own seeding is part of what is monitored): 20 000..140 000 counters per configuration on one stream, mean test as above, and no lag L at which run r and run r+L agree at all of 8 checkpoints for 99 % of 300+ pairs (independence of repeated runs). Sizes 2 and 3 get the deterministic clauses only (estimator too heavy-tailed for a CLT-based tolerance). " +
 					"All randomness derives from VERIF_SEED. distinct = hash(size, stream, seed) of deterministic runs + one per statistical configuration; non-trivial = the run went above capacity (at least one halving)",
-				Required:     []string{"deterministic_runs", "adds_checked", "exact_regime_checks", "halvings_observed", "resets", "statistical_configs", "statistical_runs", "runs_with_repeats_above_capacity", "resets_on_empty_buffer"},
+				Required:     []string{"deterministic_runs", "adds_checked", "exact_regime_checks", "halvings_observed", "resets", "statistical_configs", "statistical_runs", "runs_with_repeats_above_capacity", "resets_on_empty_buffer", "natively_seeded_runs"},
 				Assumptions:  []string{"CLT tolerance: 7 sample standard errors + 0.2 % of D; measured skewness is reported in the evidence (|skew| * 343 / (6 sqrt(R)) stays below 1, so the normal tail 2.6e-12 is off by a small factor only)", "the hook distinct.VerifReseed only replaces the random source of a counter built by NewCounter"},
 				CoverPkgs:    []string{"github.com/creachadair/mds/distinct"},
 				CoverAnchors: []string{"distinct/distinct.go:NewCounter", "distinct/distinct.go:Add", "distinct/distinct.go:Count", "distinct/distinct.go:Len", "distinct/distinct.go:Reset"},
@@ -310,7 +310,88 @@ func c19stat(c *fw.Ctx, cfg c19cfg, cfgNo int) {
 	}
 }
 
+// c19native: counters seeded the way NewCounter itself seeds them (the
+// monitor's reseeding hook is NOT used). Runs are not replayable, but the
+// verdicts keep a false-alarm probability far below 1e-9: (1) the mean test
+// with the usual tolerance; (2) the runs must not repeat each other: for every
+// lag L, the fingerprints (Count at 8 checkpoints of the stream) of run r and
+// run r+L may not agree for 99 % of at least 300 pairs. Independent runs agree
+// with a probability of a few per cent at most, so 297 of 300 is out of reach
+// for chance, while a seed sequence with a period fires at once.
+func c19native(c *fw.Ctx, size, D, R int) {
+	// every value once: the counter's trajectory then depends on its random
+	// bits only (not on the iteration order of its buffer, which Go randomises),
+	// so two counters with the same seed produce the same fingerprint
+	stream := make([]int, 0, D)
+	sr := rand.New(rand.NewPCG(uint64(size)*7919+uint64(D), 5))
+	for v := 0; v < D; v++ {
+		stream = append(stream, v)
+	}
+	sr.Shuffle(len(stream), func(i, j int) { stream[i], stream[j] = stream[j], stream[i] })
+	fps := make([]uint64, R)
+	var sum, sum2 float64
+	for run := 0; run < R; run++ {
+		ctr := distinct.NewCounter[int](size)
+		h := fw.NewH()
+		for i, v := range stream {
+			ctr.Add(v)
+			if (i+1)%(len(stream)/8) == 0 {
+				h.Int(int(ctr.Count()))
+			}
+		}
+		fps[run] = h.Sum()
+		x := float64(ctr.Count())
+		sum += x
+		sum2 += x * x
+		if run%256 == 0 {
+			c.Step()
+		}
+	}
+	c.Add("natively_seeded_runs", int64(R))
+	mean := sum / float64(R)
+	variance := max(0, sum2/float64(R)-mean*mean)
+	se := math.Sqrt(variance / float64(R))
+	tol := 7*se + 0.002*float64(D)
+	data := map[string]any{"size": size, "distinct_values": D, "runs": R, "seeding": "NewCounter's own (no reseeding hook)"}
+	if math.Abs(mean-float64(D)) > tol {
+		c.Fail(data, "mean of Count over %d natively seeded counters is %.3f for %d distinct values (tolerance %.3f)", R, mean, D, tol)
+		return
+	}
+	// exact repeats at a fixed lag
+	for lag := 1; lag <= R-300; lag++ {
+		agree, pairs := 0, 0
+		for r := 0; r+lag < R && pairs < 400; r++ {
+			pairs++
+			if fps[r] == fps[r+lag] {
+				agree++
+			} else if pairs-agree > 4 {
+				break
+			}
+		}
+		if pairs >= 300 && agree*100 >= pairs*99 {
+			c.Fail(data, "runs are not independent: run r and run r+%d produced the same Count at all 8 checkpoints in %d of %d pairs", lag, agree, pairs)
+			return
+		}
+	}
+	// and overall: far too few distinct outcomes
+	distinctFP := map[uint64]bool{}
+	for _, f := range fps {
+		distinctFP[f] = true
+	}
+	c.Max("max:natively_seeded_distinct_outcomes", int64(len(distinctFP)))
+	c.SeenEnum(1)
+}
+
 func runC19(c *fw.Ctx) {
+	if c.Begin(1<<21 + c.Block) {
+		// natural seeding: many more counters than any plausible period of a seed sequence
+		cfgs := [][3]int{{8, 80, 40000}, {16, 300, 30000}, {32, 400, 70000}, {64, 640, 20000}, {5, 48, 140000}, {100, 1000, 20000}, {12, 100, 66000}, {24, 200, 33000}}
+		cf := cfgs[c.Block%len(cfgs)]
+		ok, pv, stack := fw.Try(func() { c19native(c, cf[0], cf[1], cf[2]) })
+		if !ok {
+			c.FailKind("panic", map[string]any{"phase": "natively seeded counters"}, "panic: %v\n%s", pv, stack)
+		}
+	}
 	n := c.Pick(1500, 120000)
 	for k := 0; k < n; k++ {
 		if !c.Begin(k) {
